@@ -262,6 +262,19 @@ def run():
     res = tlc.run_tlc("Bounded", cfg, workers=8, name="Bounded-mc", timeout=600)
     chk.model_violation_must_hold(res, "Bounded", "TypeOK, SoundInv, VariantInv, DeadIsFinal, NeverWidens, Converges")
     chk.add_tlc(res, "Bounded", "design: invariants + NeverWidens + convergence under weak fairness")
+    # unbounded integers: Apalache discharges the inductive invariant of the same module (spec/MC_BoundedApa.tla)
+    from harness import apalache
+    obl = apalache.obligations("MC_BoundedApa", [
+        ("Init => IndInv", "Init", "IndInv", 0, "ok"),
+        ("IndInv /\\ Next => IndInv'", "IndInit", "IndInv", 1, "ok"),
+        ("IndInv => SoundInv /\\ VariantInv /\\ DeadIsFinal", "IndInit", "Safety", 0, "ok"),
+        ("non-vacuity: an exposure with a finite budget is reachable", "Init", "CanaryExpose", 3, "violated"),
+        ("non-vacuity: quiescence is reachable", "Init", "CanaryDead", 3, "violated")])
+    chk.extra["apalache_inductive_check_of_Bounded"] = obl
+    for o in obl:
+        if o["outcome"] != "unavailable" and o["outcome"] != o["expected"]:
+            chk.drift.append("Apalache obligation '%s' on Bounded.tla: %s (expected %s); a defect of the model, lead only"
+                             % (o["obligation"], o["outcome"], o["expected"]))
     chk.extra["hung_cases"] = hung_cases
     chk.rule = ("cases = every object implementing bounds()/tighten_bounds() created while diffing the corpus pairs "
                 "(small domain, random/mutated JSON, skewed sizes, multisets, XML; 9 option sets), observed passively "
